@@ -102,7 +102,7 @@ theorem coverage_pinned :
     Hand.handSchemas.map (·.name) = ["OpenChannel", "AcceptChannel", "OpenChannelV2", "AcceptChannelV2"] ∧
     Hand.tailSchemas.map (·.name) = ["UnsignedChannelAnnouncement", "ChannelAnnouncement", "UnsignedChannelUpdate", "ChannelUpdate"] ∧
     Hand.customNames = ["ErrorMessage", "WarningMessage", "Ping", "Pong"] ∧
-    Custom.customNames = ["UnsignedNodeAnnouncement", "NodeAnnouncement", "QueryShortChannelIds", "ReplyChannelRange", "Init"] := by
+    Custom.customNames = ["UnsignedNodeAnnouncement", "NodeAnnouncement", "QueryShortChannelIds", "ReplyChannelRange", "Init", "OnionMessage"] := by
   decide
 
 /-- the round trip, instantiated for every message schema translated from msgs.rs -/
@@ -647,6 +647,51 @@ example : Custom.decodeInit ([0, 0, 0, 0] ++ [1, 33] ++ List.replicate 33 6) = .
 example : Custom.decodeInit ([0, 0, 0, 0] ++ [3, 2, 9, 9]) = .error .UnknownVersion := by decide                   -- unknown address type in the TLV
 example : Custom.decodeInit ([0, 0, 0, 0] ++ [3, 8, 1, 10, 0, 0, 1, 0x26, 0x07, 0]) = .error .InvalidValue := by decide   -- address does not fill its record
 example : Custom.decodeInit ([0, 0, 0, 0] ++ [2, 0]) = .error .UnknownRequiredFeature := by decide
+
+/-! ### OnionMessage -/
+
+/-- the constant the packet reader subtracts from the declared length IS the width of the packet's fixed fields
+    (version + public key + hmac) -/
+theorem onion_overhead_is_field_widths : Custom.onionMsgOverhead = 1 + 33 + 32 := by decide
+
+/-- OnionMessage round-trips (hop data of any length that fits the u16 packet length), whatever follows the message -/
+theorem onion_message_roundtrip (m : Custom.OnionMsg) (hm : m.wf = true) (rest : Bytes) :
+    Custom.decodeOnionMsg (Custom.encodeOnionMsg m ++ rest) = .ok (m, rest) := Custom.onion_roundtrip' m hm rest
+
+/-- what the decoder consumed is exactly the canonical encoding of the (well-formed) message it returns: the packet occupies exactly
+    the declared `len` bytes (never fewer — a declared length below 66 or beyond the input is rejected — never more) -/
+theorem onion_message_decode_canonical (b : Bytes) (m : Custom.OnionMsg) (rest : Bytes) (h : Custom.decodeOnionMsg b = .ok (m, rest)) :
+    b = Custom.encodeOnionMsg m ++ rest ∧ m.wf = true := Custom.onion_exact' b m rest h
+
+theorem onion_message_reencode_stable (b : Bytes) (m : Custom.OnionMsg) (rest : Bytes) (h : Custom.decodeOnionMsg b = .ok (m, rest)) :
+    Custom.decodeOnionMsg (Custom.encodeOnionMsg m) = .ok (m, []) := by
+  have := onion_message_roundtrip m (onion_message_decode_canonical b m rest h).2 []
+  simpa using this
+
+/-- a declared packet length that the input does not cover is never accepted -/
+theorem onion_message_short_input_rejected (bp : Val) (hbp : Hand.point.valid bp = true) (len : Nat) (hl : len < 2 ^ 16) (tail : Bytes)
+    (hshort : tail.length < len) : ∃ e, Custom.decodeOnionMsg (Hand.point.encode bp ++ (beEncode 2 len ++ tail)) = .error e := by
+  cases hres : Custom.decodeOnionMsg (Hand.point.encode bp ++ (beEncode 2 len ++ tail)) with
+  | error e => exact ⟨e, rfl⟩
+  | ok p =>
+    exfalso
+    obtain ⟨m, rest⟩ := p
+    have hpt : Hand.point.wf = true ∧ Hand.point.selfDelim = true := by decide
+    simp only [Custom.decodeOnionMsg, field_roundtrip Hand.point bp _ hpt.1 hbp (.inl hpt.2), readUint_encode,
+      Nat.mod_eq_of_lt (show len < 256 ^ 2 by omega)] at hres
+    split at hres
+    · cases hres
+    · rename_i pv r' hpk
+      obtain ⟨_, p2, p3⟩ := Custom.hdrOk_parts (Custom.packetTys_ok (len - Custom.onionMsgOverhead))
+      have e2 := Custom.decodeFixed_exact _ _ _ _ p3 hpk
+      obtain ⟨_, hpl⟩ := Custom.packet_shape _ _ (decodeFixed_valid _ _ _ _ p2 hpk)
+      have h1 : (tail.take len).length = Custom.onionMsgOverhead + (len - Custom.onionMsgOverhead) + r'.length := by
+        rw [e2, List.length_append, hpl]
+      simp only [List.length_take, Custom.onionMsgOverhead, onionPacketOverheadPinned] at h1
+      omega
+example : Custom.decodeOnionMsg ([2] ++ List.replicate 32 1 ++ [0, 67, 0, 2] ++ List.replicate 32 1 ++ [0xaa] ++ List.replicate 32 9 ++ [0xee]) =
+    .ok (⟨.bytes ([2] ++ List.replicate 32 1), [.nat 0, .bytes ([2] ++ List.replicate 32 1), .bytes [0xaa], .bytes (List.replicate 32 9)]⟩, [0xee]) := by decide
+example : Custom.decodeOnionMsg ([2] ++ List.replicate 32 1 ++ [0, 65, 0, 2] ++ List.replicate 32 1 ++ List.replicate 32 9) = .error .ShortRead := by decide
 
 /-! ## wire level -/
 
